@@ -61,10 +61,12 @@ def check_file(run, np, op4, sp, data, blocks, v, tag):
     """blocks: what was encoded.  Returns a failure message or None."""
     want = []
     for b in blocks:
-        M = np.array(P.place(b))
-        M = np.vectorize(lambda y: expected_value(y, v))(M) if M.size else M
-        if b["hdr"]["mtype"] in (3, 4):
-            M = M.astype(complex)
+        h = b["hdr"]
+        M = np.zeros((abs(h["nrows"]), h["ncols"]), complex if h["mtype"] in (3, 4) else float)
+        for c in b["cols"]:
+            for s_ in c["strs"]:
+                for k, y in enumerate(s_["vals"]):
+                    M[s_["r0"] - 1 + k, c["icol"] - 1] = expected_value(y, v)
         want.append((b["hdr"]["name"].lower(), M, b["hdr"]["form"], b["hdr"]["mtype"]))
     with C.TmpFile(data) as path:
         for mode in (False, True, None):
@@ -137,7 +139,10 @@ def body(run: Run, replay):
                        "the 61 shipped Nastran/pyYeti sample files", "OUTPUT2 coverage: see the OP2 part of this driver"]
     quick = run.tier == "quick"
     rnd = random.Random(run.seed)
-    plans = [("MC_Op4_q1.cfg", 3, 2, 2, 1, False, 3), ("MC_Op4_q2.cfg", 3, 2, 1, 2, True, 2)]
+    #        cfg              NR NC WPV CPLX ascii perline
+    plans = [("MC_Op4_q1.cfg", 3, 2, 2, 1, False, 3), ("MC_Op4_q2.cfg", 3, 2, 1, 2, True, 2), ("MC_Op4_q3.cfg", 3, 2, 1, 1, False, 3),
+             ("MC_Op4_q4.cfg", 3, 2, 1, 2, False, 3), ("MC_Op4_q5.cfg", 3, 2, 2, 2, False, 3), ("MC_Op4_q6.cfg", 3, 2, 2, 1, True, 3),
+             ("MC_Op4_h1.cfg", 3, 1, 2, 1, False, 3), ("MC_Op4_h2.cfg", 3, 1, 1, 1, True, 3), ("MC_Op4_h3.cfg", 3, 1, 1, 2, False, 3)]
     if not quick:
         plans += [("MC_Op4_t1.cfg", 4, 2, 2, 1, False, 3), ("MC_Op4_t2.cfg", 3, 2, 2, 2, True, 3)]
     plans_extra = [("MC_Op4_q1.cfg", 1, 1), ("MC_Op4_q1.cfg", 1, 2), ("MC_Op4_q1.cfg", 2, 2), ("MC_Op4_q2.cfg", 2, 1), ("MC_Op4_q2.cfg", 1, 1), ("MC_Op4_q2.cfg", 2, 2)]
@@ -150,12 +155,15 @@ def body(run: Run, replay):
         order = list(range(len(encs)))
         rnd.shuffle(order)
         if quick:
-            order = order[:1500]
+            order = order[:600]
         for gi in range(0, len(order), 3):
             group = [encs[i] for i in order[gi : gi + 3]]
             v = vs[(gi // 3) % len(vs)]
             single = v["kind"] == "binary" and v["mtype"] in (1, 3) and not v["bit64"]
             pool = C.VAL_S if single else C.VAL_D
+            if v["kind"] == "ascii" and v["width"] < v["digits"] + 8:
+                # a legal file never overflows its announced field: 3-digit exponents need width >= digits + 8
+                pool = [x for x in pool if x == 0 or 1e-99 <= abs(x) < 9.9e99]
             blocks = []
             for k, (M, enc) in enumerate(group):
                 base = pool[(gi + k) % len(pool)]
@@ -195,8 +203,12 @@ def body(run: Run, replay):
             kw = dict(sparse=True)
         else:
             kw = dict(sparse=False)
-        names, mats, forms, mtypes = op4.load(f, into="list", **kw)
-        dn, ds, df, dt = op4.dir(f, verbose=False)
+        try:
+            names, mats, forms, mtypes = op4.load(f, into="list", **kw)
+            dn, ds, df, dt = op4.dir(f, verbose=False)
+        except Exception as ex:
+            run.violation("reading shipped file raised %r" % ex, {"file": base}, {"kind": "shipped"})
+            continue
         if len(blocks) != len(names) or len(dn) != len(names):
             run.violation("number of matrices: load %d, dir %d, tokenizer %d" % (len(names), len(dn), len(blocks)), {"file": base}, {"kind": "shipped"})
             continue
